@@ -57,6 +57,8 @@ func profileWeights(p string) weights {
 	}
 }
 
+var gzDamage = []string{"crc", "isize", "deflate"}
+
 var rawVariants = []string{"errcode", "badparity", "truncated", "corrupt", "wrongkey"}
 
 // playRandom draws the schedule while it runs.
@@ -106,6 +108,7 @@ func (r *run) playRandom(g *vc.Rng, profile string) {
 		return nextSid + 3
 	}
 	nextSalt := int64(1000 + 10*(r.idx%50))
+	var saltHistory []int64 // salts announced by rotations so far
 	pGz := 10 + g.Intn(30)
 	type contentMsg struct {
 		line string
@@ -223,6 +226,7 @@ func (r *run) playRandom(g *vc.Rng, profile string) {
 				b = &bodySpec{op: "ack"}
 			case 2:
 				b = &bodySpec{op: "newsess", salt: nextSalt}
+				saltHistory = append(saltHistory, nextSalt)
 				nextSalt++
 			default:
 				b = &bodySpec{op: "svc", n: g.Intn(64)}
@@ -259,8 +263,41 @@ func (r *run) playRandom(g *vc.Rng, profile string) {
 			}
 		case "rotate":
 			rotations--
+			// the salt this rotation announces: a new one, the one announced last (one rotation, several rejected
+			// requests: the server sends one bad_server_salt per request, all with the same salt), or an earlier one
 			salt := nextSalt
-			nextSalt++
+			switch {
+			case len(saltHistory) > 0 && g.Intn(3) == 0:
+				salt = saltHistory[len(saltHistory)-1]
+			case len(saltHistory) > 1 && g.Intn(4) == 0:
+				salt = saltHistory[g.Intn(len(saltHistory))]
+			default:
+				nextSalt++
+			}
+			saltHistory = append(saltHistory, salt)
+			ref := func(i int) string { return fmt.Sprintf("@%d.%d", openT[i], open[i].k) }
+			mode := g.Intn(10)
+			switch {
+			case len(open) >= 2 && mode < 3:
+				// every pending request is rejected, each by its own bad_server_salt, all naming the same salt
+				for i := range open {
+					send(sid(false), int32(2*g.Intn(50)), &bodySpec{op: "badsalt", ref: ref(i), salt: salt})
+				}
+				continue
+			case len(open) >= 2 && mode < 5:
+				// ... the same in one container
+				top := &bodySpec{op: "cont"}
+				for i := range open {
+					top.items = append(top.items, itemSpec{sid: sid(false), seq: int32(2 * g.Intn(50)), body: &bodySpec{op: "badsalt", ref: ref(i), salt: salt}})
+				}
+				send(sid(false), 2, top)
+				continue
+			case len(open) >= 1 && mode < 7:
+				// new_session_created announces the salt first, then a request sent under the old one is rejected with it
+				send(sid(false), 1, &bodySpec{op: "newsess", salt: salt})
+				send(sid(false), int32(2*g.Intn(50)), &bodySpec{op: "badsalt", ref: ref(g.Intn(len(open))), salt: salt})
+				continue
+			}
 			var b *bodySpec
 			pick := g.Intn(10)
 			switch {
@@ -293,6 +330,9 @@ func (r *run) playRandom(g *vc.Rng, profile string) {
 				if other.spec.kind == "err" {
 					ans.op = "err"
 				}
+				if (other.spec.kind == "vecbare" || other.spec.kind == "vecobj") && !other.spec.hinted {
+					ans.kind = "obj"
+				}
 				items := []itemSpec{{sid: sid(false), seq: seq, body: b}, {sid: sid(true), seq: 1, body: ans}}
 				if g.Bool() {
 					items[0], items[1] = items[1], items[0]
@@ -308,7 +348,36 @@ func (r *run) playRandom(g *vc.Rng, profile string) {
 			hostile--
 			s := sid(true)
 			seq := int32(g.Intn(100))
-			switch g.Intn(9) {
+			switch g.Intn(11) {
+			case 9: // gzip_packed with a valid header and complete data but a damaged stream, at top level:
+				// around a service message, an unhandled object, a container
+				dmg := gzDamage[g.Intn(len(gzDamage))]
+				var inner *bodySpec
+				switch g.Intn(3) {
+				case 0:
+					inner = &bodySpec{op: "pong"}
+				case 1:
+					inner = &bodySpec{op: "svc", n: g.Intn(64)}
+				default:
+					inner = &bodySpec{op: "cont", items: []itemSpec{{sid: sid(false), seq: 0, body: &bodySpec{op: "pong"}}, {sid: sid(false), seq: 1, body: &bodySpec{op: "svc", n: g.Intn(64)}}}}
+				}
+				send(s, seq, &bodySpec{op: "gz", inner: inner, gzbad: dmg})
+			case 10: // ... inside rpc_result: for a pending request (bad trailer: the library takes the result; corrupt
+				// data: nobody is answered, the request stays open) or for an id nobody waits for
+				dmg := gzDamage[g.Intn(len(gzDamage))]
+				if len(open) > 0 {
+					i := g.Intn(len(open))
+					b := &bodySpec{op: "res", ref: fmt.Sprintf("@%d.%d", openT[i], open[i].k), kind: open[i].spec.kind, tok: open[i].spec.token, gz: true, gzbad: dmg}
+					if open[i].spec.kind == "err" {
+						b.op = "err"
+					}
+					if (open[i].spec.kind == "vecbare" || open[i].spec.kind == "vecobj") && !open[i].spec.hinted {
+						b.kind = "obj"
+					}
+					send(s, seq|1, b)
+				} else {
+					send(s, seq|1, &bodySpec{op: "res", ref: fmt.Sprintf("%d", 4*(3000000+g.Intn(1000))), kind: "obj", tok: 5, gz: true, gzbad: dmg})
+				}
 			case 0:
 				v := rawVariants[g.Intn(len(rawVariants))]
 				r.slog("raw " + v)
